@@ -126,7 +126,8 @@ func (s *UtxoStore) AddCredits(tx mwdb.DBTransaction, allBalances map[string]mas
 	// mined tx
 	for _, rel := range rec.RelevantTxOut {
 		maturity := rel.PkScript.Maturity()
-		if isCoinBase {
+		if isCoinBase && maturity < consensus.CoinbaseMaturity {
+			// a coinbase may pay a staking or binding script, whose own lock can be longer
 			maturity = consensus.CoinbaseMaturity
 		}
 
